@@ -232,6 +232,9 @@ class Ctx:
         return cur() if callable(cur) else cur
 
     def result(self):
+        from . import lib
+        for name, count in lib.PRELUDE_COUNTS.items():
+            self.extra['prelude/' + name] = count
         return {'evaluations': self.evaluations,
                 'nontrivial': sorted(self.nontrivial),
                 'classes': dict(self.classes),
